@@ -6,7 +6,9 @@ import PaletteModel.ClampDriver
 import PaletteModel.ConvDriver
 import PaletteModel.SoaDriver
 import PaletteModel.RouteDriver
+import PaletteModel.AdaptDriver
 import PaletteModel.SerdeDriver
+import PaletteModel.CastDriver
 
 open Proto
 
@@ -16,11 +18,13 @@ def dispatch (op : String) (cfg inp outp : List String) : Verdict :=
   | "clamp" | "clamphwb" => Clamp.handle op cfg inp outp
   | "soa" => Soa.handle cfg inp outp
   | "soatypes" => Soa.handleTypes inp
+  | "adapt" | "rgbwhite" => Adapt.handle op cfg inp outp
   | "routecmp" => Route.handle cfg inp outp
   | "conv" => Conv.handle cfg inp outp
   | "curve" => Transfer.handle cfg inp outp
   | "lutenc" | "lutdec" | "lutenc16" | "lutdec16" => Lut.handle op cfg inp outp
   | "ser" | "shape" | "de" | "arr" | "arrde" | "uint" | "uintde" | "maxint" | "desc" | "ntypes" => Serde.handle op cfg inp outp
+  | "cast" | "c04fields" | "c04layout" => Cast.handle op cfg inp outp
   | _ => .bad s!"unknown op {op}"
 
 structure DrvAcc where
